@@ -39,9 +39,11 @@ import (
 	"fmt"
 	"math/rand"
 	"os"
+	"reflect"
 	"sort"
 	"strings"
 	"time"
+	"unsafe"
 
 	"google.golang.org/protobuf/types/known/timestamppb"
 	"reduction.dev/reduction-protocol/handlerpb"
@@ -619,6 +621,14 @@ func replayStore(bi int, beh []mbt.Step, in *mbt.Input, res *mbt.Result) {
 			}
 		case "Checkpoint":
 			id := st.Int("id")
+			// half of the checkpoints are taken with everything flushed (the restored
+			// state then comes from table files, not from the WAL)
+			if r.rng.Intn(2) == 0 {
+				if err := r.s.Relieve(0); err != nil {
+					r.machinery(si, err)
+					return
+				}
+			}
 			h, err := w.db.Checkpoint(uint64(id))()
 			if err != nil {
 				r.machinery(si, fmt.Errorf("checkpoint %d: %v", id, err))
@@ -758,9 +768,73 @@ type opWorld struct {
 	evs     []int          // events of the current batch
 	wants   map[int][][3]int // key -> want of the current batch (from FetchEnd)
 	fg      chan error     // the foreground call that makes the operator process the batch
-	fgDone  chan struct{}
 	arr     *gate.Arrival
+	pcall   *hcall // handler call received while waiting for a scan
 	wm      int64
+	db      *dkv.DB
+}
+
+// operatorDB reads the operator's (unexported) database handle.
+func operatorDB(op *operator.Operator) (db *dkv.DB, err error) {
+	defer func() {
+		if p := recover(); p != nil {
+			err = fmt.Errorf("cannot read operator.Operator.db: %v", p)
+		}
+	}()
+	f := reflect.ValueOf(op).Elem().FieldByName("db")
+	if !f.IsValid() {
+		return nil, fmt.Errorf("operator.Operator has no field db")
+	}
+	db = *(**dkv.DB)(unsafe.Pointer(f.UnsafeAddr()))
+	if db == nil {
+		return nil, fmt.Errorf("operator.Operator.db is nil after deploy")
+	}
+	return db, nil
+}
+
+// adopt makes the freshly deployed operator's database the scheduled one. Its
+// background tasks ran freely while it was opened (the WAL replay may rotate
+// more often than dkv's task queue can hold behind a closed gate).
+func (w *opWorld) adopt() error {
+	db, err := operatorDB(w.op)
+	if err != nil {
+		return err
+	}
+	waitTasks(db)
+	w.db = db
+	w.s.SetMain(db)
+	return w.s.AfterWrite()
+}
+
+// sync returns when the operator's loop has finished whatever it was doing.
+func (w *opWorld) sync() error {
+	return w.send(&workerpb.Event{Event: &workerpb.Event_Watermark{Watermark: &workerpb.Watermark{Timestamp: timestamppb.New(time.Unix(0, w.wm))}}})
+}
+
+// awaitScanOrCall waits until the operator's loop is parked inside a fetch of
+// the main database or has called the handler.
+func (w *opWorld) awaitScanOrCall() *gate.Arrival {
+	deadline := time.Now().Add(dkvsched.Wait)
+	for time.Now().Before(deadline) {
+		if a := w.s.TryScan(); a != nil {
+			return a
+		}
+		if w.pcall == nil {
+			select {
+			case c := <-w.h.calls:
+				w.pcall = &c
+			default:
+			}
+		}
+		if w.pcall != nil {
+			if a := w.s.TryScan(); a != nil {
+				return a
+			}
+			return nil
+		}
+		time.Sleep(20 * time.Microsecond)
+	}
+	return nil
 }
 
 func (w *opWorld) start(ckpts []*snapshotpb.OperatorCheckpoint) error {
@@ -860,9 +934,15 @@ func replayOperator(bi int, beh []mbt.Step, in *mbt.Input, res *mbt.Result) {
 	defer func() {
 		r.s.Close()
 		w.stop()
+		if w.db != nil {
+			waitTasks(w.db)
+		}
 	}()
-	r.s.AdoptNext()
 	if err := w.start(nil); err != nil {
+		r.machinery(0, err)
+		return
+	}
+	if err := w.adopt(); err != nil {
 		r.machinery(0, err)
 		return
 	}
@@ -899,10 +979,9 @@ func replayOperator(bi int, beh []mbt.Step, in *mbt.Input, res *mbt.Result) {
 					return
 				}
 			}
-			w.fg, w.fgDone = make(chan error, 1), make(chan struct{})
+			w.fg, w.pcall = make(chan error, 1), nil
 			last, full := w.evs[len(w.evs)-1], len(w.evs) == w.maxSize
-			go func(fg chan error, done chan struct{}) {
-				defer close(done)
+			go func(fg chan error) {
 				if err := w.send(keyed(w.c.key(last))); err != nil {
 					fg <- err
 					return
@@ -916,15 +995,11 @@ func replayOperator(bi int, beh []mbt.Step, in *mbt.Input, res *mbt.Result) {
 					}
 				}
 				fg <- nil
-			}(w.fg, w.fgDone)
+			}(w.fg)
 		case "FetchBegin":
 			// the operator's loop fetches the batch's keys in event order; if it
 			// does not scan at all it is the handler call that will be judged
-			arr, err := r.s.AwaitScan(w.fgDone)
-			if err != nil {
-				arr = nil
-			}
-			w.arr = arr
+			w.arr = w.awaitScanOrCall()
 		case "FetchEnd":
 			w.wants[st.Int("k")] = wantTriples(st["want"])
 			if st.Bool("last") {
@@ -938,14 +1013,15 @@ func replayOperator(bi int, beh []mbt.Step, in *mbt.Input, res *mbt.Result) {
 			r.s.ArmScan(false)
 			r.s.G.ReleaseWhere(func(a *gate.Arrival) bool { return a.Point == dkvsched.PtScanBetween })
 			var c hcall
-			select {
-			case c = <-w.h.calls:
-			case err := <-w.fg:
-				r.violate(si, fmt.Sprintf("the operator finished a batch of %d events without calling the handler (%v)", len(w.evs), err), nil, nil)
-				return
-			case <-time.After(dkvsched.Wait):
-				r.machinery(si, fmt.Errorf("handler not called"))
-				return
+			if w.pcall != nil {
+				c, w.pcall = *w.pcall, nil
+			} else {
+				select {
+				case c = <-w.h.calls:
+				case <-time.After(dkvsched.Wait):
+					r.machinery(si, fmt.Errorf("handler not called for a batch of %d events", len(w.evs)))
+					return
+				}
 			}
 			// events: the batch, in order
 			if len(c.req.Events) != len(w.evs) {
@@ -1027,6 +1103,10 @@ func replayOperator(bi int, beh []mbt.Step, in *mbt.Input, res *mbt.Result) {
 				r.machinery(si, fmt.Errorf("the operator does not finish the batch"))
 				return
 			}
+			if err := w.sync(); err != nil { // a batch cut by its time-out is applied after the time-out call returned
+				r.machinery(si, err)
+				return
+			}
 			res.Count("batches", 1)
 			if err := r.s.AfterWrite(); err != nil {
 				r.machinery(si, err)
@@ -1057,17 +1137,11 @@ func replayOperator(bi int, beh []mbt.Step, in *mbt.Input, res *mbt.Result) {
 				if d := w.tm.Take(); d != nil { // expiries left in a partial batch
 					d()
 				}
-				return nil
+				return w.sync()
 			})
 			if err != nil {
 				r.machinery(si, err)
 				return
-			}
-			// the time-out token is consumed by the loop after d() returns
-			select {
-			case c := <-w.h.calls:
-				w.serve(si, c)
-			case <-time.After(3 * time.Millisecond):
 			}
 			if err := r.s.AfterWrite(); err != nil {
 				r.machinery(si, err)
@@ -1115,8 +1189,10 @@ func replayOperator(bi int, beh []mbt.Step, in *mbt.Input, res *mbt.Result) {
 				r.violate(si, fmt.Sprintf("deploying an operator from checkpoint %d fails: %v", id, pan), nil, nil)
 				return
 			}
-			time.Sleep(2 * time.Millisecond) // flushes queued by the WAL replay
-			r.s.AdoptNext()
+			if err := w.adopt(); err != nil {
+				r.machinery(si, err)
+				return
+			}
 			r.sh = r.snap[id].clone()
 			w.wm = 0
 			for i := 0; ; i++ {
